@@ -68,7 +68,7 @@ def mk(m, pid, q):
                        encodes=ENG_FNS[eng], bounds="one block per shard; this call tuple; unwind 128", timeout=1800, mem_gb=8, symbolic="64 bytes of one shard + 128 guard bytes", tiers=tiers)
     if m["kind"] == "basis_lane":
         return Harness(name, pid, f"real NoSimd::{m['op']}(size={m['size']}, truncated_size={m['trunc']}, skew_delta={m['delta']}): ONE symbolic symbol (lane 3) in shard {m['p']}, everything else zero => valid outputs in that lane equal M[i][{m['p']}]*x (oracle matrix)",
-                       encodes=ENG_FNS[eng], bounds="one symbolic lane of one shard; this call tuple; unwind 128", timeout=3600, mem_gb=10, symbolic="one 16-bit symbol", tiers=("thorough",))
+                       encodes=ENG_FNS[eng], bounds="one symbolic lane of one shard; this call tuple; unwind 128", timeout=3600, mem_gb=24, symbolic="one 16-bit symbol", tiers=("thorough",))
     if m["kind"] == "additive":
         return Harness(name, pid, f"real NoSimd::{m['op']}(size={m['size']}, truncated_size={m['trunc']}, skew_delta={m['delta']}): f(a)^f(b) == f(a^b) on all valid outputs for fully symbolic buffers",
                        encodes=ENG_FNS[eng], bounds="one block per shard; unwind 128", timeout=2400, mem_gb=10, symbolic=f"2 x {m['size']} x 64 bytes", tiers=tiers)
